@@ -9,7 +9,7 @@
    narrower than the grammar (finding C05c: blank node identifiers that are not
    BLANK_NODE_LABELs); C05a, C05b, C05d have been repaired in the code and their
    trigger hypotheses are gone. *)
-From RV Require Import Grammar.Model Grammar.Proofs Grammar.Reader Grammar.ReaderProofs.
+From RV Require Import Grammar.Model Grammar.Proofs Grammar.Reader Grammar.ReaderProofs Grammar.ReaderDoc.
 Local Open Scope N_scope.
 
 (* "Conversely rdflib's N-Triples output is accepted by a strict implementation of
@@ -131,14 +131,29 @@ Print Assumptions C05_valid_uri_is_iriref.
      C05h an IRIREF none of whose colons is written as such   ([line_kf nq l = 0]).
    Blank nodes keep their document labels in the model (the harness maps rdflib's fresh nodes back through
    bnode_context), so "up to blank node relabelling" is equality here.  A line is what readline() returns: no CR, no LF.
-   NOT proved: the same statement for whole documents (that readline's cutting at CR / LF / CRLF agrees with the
-   grammar's EOL handling); it is tested, with the Coq strict reader as the judge, on every generated document and on
-   the W3C syntax suites. *)
+   The same for whole documents is C05_nt_reads_legal_document below. *)
 Theorem C05_nt_reads_legal : forall nq l q,
   no_eol l = true -> strict_parse nq l = Some q -> line_kf nq l = 0 ->
   rd_parseline nq l = Some (Some q).
 Proof. exact reads_legal_line. Qed.
 Print Assumptions C05_nt_reads_legal.
+
+(* whole documents: readline() cuts the text at every CR and LF (CR LF gives one extra empty piece) and drops an
+   unterminated last piece that is empty or white space; parseline() reads each piece.  Every document the grammar
+   accepts - statements, blank lines, comment lines, LF / CR / CRLF / runs of them, with or without a final end of
+   line - is read to the same list of statements, in the same order, when no line is in the region of C05f / C05h.
+   (The 2048-character buffering of readline is not modelled.) *)
+Theorem C05_nt_reads_legal_document : forall nq d qs,
+  strict_doc nq d = Some qs -> doc_kf nq d = 0 -> rd_doc nq d = Some qs.
+Proof. exact reads_legal_doc. Qed.
+Print Assumptions C05_nt_reads_legal_document.
+
+(* in the vocabulary of the correspondence suite "ntread": outside the triggers the reader model returns what the
+   strict reader says the document means *)
+Theorem C05_reader_model_meets_spec : forall c qs,
+  strict_doc (r_nq c) (r_doc c) = Some qs -> rd_kf c = 0 -> rd_model_obs c = Some qs.
+Proof. intros c qs H K. unfold rd_model_obs. apply reads_legal_doc; [exact H|exact K]. Qed.
+Print Assumptions C05_reader_model_meets_spec.
 
 (* the same, stated on the grammar's statement production: anything may follow the final dot that the grammar
    allows there (white space and a comment) *)
